@@ -659,7 +659,7 @@ VARIANTS = [
     Variant("schedule-sort-removed", "FIRE", "processing",
             "    scheduled_rewrites.sort(\n        key=lambda tup: (\n            tup[1][0],  # Character numbers of rewrite, a core.Range type\n            core.unparse(tup[1][1].new) if tup[1][1].new else \"\",  # New code to be inserted or replaced\n            tup[0]  # Transaction number\n        ),\n        reverse=True,\n    )\n", "", None),
     Variant("join-over-text-set", "FIRE", "symbolic_math",
-            "    expr = \" + \".join(core.unparse(node).strip() for node in values)", "    expr = \" + \".join({core.unparse(node).strip() for node in values})", "R6.3"),
+            "    expr = \" + \".join(f\"({core.unparse(node).strip()})\" for node in values)", "    expr = \" + \".join({f\"({core.unparse(node).strip()})\" for node in values})", "R6.3"),
     Variant("join-over-import-name-set", "FIRE", "fixes",
             "    names = \", \".join(\n        sorted(\n            alias.name if alias.asname is None else f\"{alias.name} as {alias.asname}\"\n            for alias in node.names\n            if (alias.name if alias.asname is None else alias.asname) not in unused_imports\n    ))",
             "    names = \", \".join(\n        {\n            alias.name if alias.asname is None else f\"{alias.name} as {alias.asname}\"\n            for alias in node.names\n            if (alias.name if alias.asname is None else alias.asname) not in unused_imports\n    })", "R6.3"),
